@@ -24,6 +24,7 @@
 (* @obligation C11.keepalive  keep-alive = four zero bytes                                                             *)
 (* @obligation C11.roundtrip  reader(any fragmentation of Encode(m1..mk)) = m1..mk                                     *)
 (* @obligation C11.upcount    reported upload bytes = payload bytes of the piece frames written                        *)
+(*                            -- including a frame that the transport took only in part (FAULT, below)                 *)
 (*                                                                         *)
 (* TIME is part of the fragmentation: between two deliveries the transport *)
 (* may stay silent until the reader's read deadline expires (Timeout).     *)
@@ -34,13 +35,23 @@
 (* the position inside the block or the stream - any other expired         *)
 (* deadline closes the connection (what was delivered before stays a       *)
 (* prefix of what was written).                                            *)
+(*                                                                         *)
+(* FAULT (environment): the connection may break WHILE the writer hands a  *)
+(* frame to the transport - the transport takes only the first k bytes of  *)
+(* the frame (0 <= k < frame length; conn.Write returns k and an error) -  *)
+(* SendCut.  Nothing is written afterwards.  "Payload bytes actually sent" *)
+(* then counts, for a piece frame, the k - 13 block bytes the transport    *)
+(* took (none while k <= 13), NOT the block length of the request; the     *)
+(* invariant UploadCount states it at the receiving end: the bytes of      *)
+(* complete blocks plus the body bytes of the truncated one.               *)
 (***************************************************************************)
 EXTENDS WireCodec
 
 VARIABLES script,   \* sequence of messages handed to the writer (a leading handshake is allowed)
           ns,       \* how many of them have been written
           net,      \* bytes written and not yet delivered
-          wr,       \* writer: [upl, served, log]   log = messages actually emitted
+          wr,       \* writer: [upl, served, log, cut]   log = messages completely emitted;
+                    \*         cut = -1: connection intact, k >= 0: it broke after the transport took k bytes of a frame
           rd,       \* remote reader, see WireCodec!RdInit
           tm        \* reader and time: [got |-> a body byte of the current block arrived since the deadline was armed,
                     \*                   closed |-> the reader gave up after an expired deadline]
@@ -52,14 +63,23 @@ ReqOf(m)     == << m.index, m.begin, PLenLimbs(m) >>
 RejectOf(m)  == [k |-> "reject", index |-> m.index, begin |-> m.begin, length |-> PLenLimbs(m)]
 IsDup(w, m)  == m.k = "piece" /\ ReqOf(m) \in w.served
 
-WrInit == [upl |-> 0, served |-> {}, log |-> <<>>]
+WrInit == [upl |-> 0, served |-> {}, log |-> <<>>, cut |-> -1]
+Broken(w) == w.cut >= 0
 \* what the writer puts on the wire for m
 Emitted(w, m) == IF IsDup(w, m) THEN RejectOf(m) ELSE m
 WrStep(w, m) ==
     LET x == Emitted(w, m) IN
     [upl |-> w.upl + (IF x.k = "piece" THEN PLen(x) ELSE 0),
      served |-> IF x.k = "piece" THEN w.served \cup {ReqOf(x)} ELSE w.served,
-     log |-> Append(w.log, x)]
+     log |-> Append(w.log, x), cut |-> w.cut]
+\* block bytes among the first k bytes of the frame of x (13 = length prefix + id + index + begin)
+PayloadTaken(x, k) == IF x.k = "piece" /\ k > 13 THEN k - 13 ELSE 0
+\* the write of m was cut short after k bytes
+WrCut(w, m, k) ==
+    LET x == Emitted(w, m) IN
+    [upl |-> w.upl + PayloadTaken(x, k),
+     served |-> IF x.k = "piece" THEN w.served \cup {ReqOf(x)} ELSE w.served,
+     log |-> w.log, cut |-> k]
 
 HasHs(s) == s # <<>> /\ s[1].k = "handshake"
 
@@ -80,12 +100,21 @@ InitWith(s) ==
 
 \* the writer serialises the next message (any admissible encoding of it)
 Send ==
-    /\ ns < Len(script)
+    /\ ns < Len(script) /\ ~Broken(wr)
     /\ LET m == script[ns + 1] IN
        /\ \E e \in Encodings(Emitted(wr, m)) : net' = net \o e
        /\ wr' = WrStep(wr, m)
     /\ ns' = ns + 1
     /\ UNCHANGED <<script, rd, tm>>
+
+\* FAULT: the connection breaks while the next frame is being written; the transport took its first k bytes
+SendCut ==
+    /\ ns < Len(script) /\ ~Broken(wr)
+    /\ LET m == script[ns + 1] IN
+       \E e \in Encodings(Emitted(wr, m)) : \E k \in 0 .. Len(e) - 1 :
+          /\ net' = net \o SubSeq(e, 1, k)
+          /\ wr' = WrCut(wr, m, k)
+    /\ UNCHANGED <<script, ns, rd, tm>>
 
 \* the transport hands the first k pending bytes to the reader
 Deliver(k) ==
@@ -104,6 +133,8 @@ Timeout ==
     /\ UNCHANGED <<script, ns, net, wr, rd>>
 
 Next == ~tm.closed /\ (Send \/ (\E k \in 1 .. Len(net) : Deliver(k)) \/ Timeout)
+\* with the write fault
+NextF == Next \/ (~tm.closed /\ SendCut)
 
 -----------------------------------------------------------------------------
 Expected == SelectSeq(wr.log, Visible)
@@ -113,12 +144,14 @@ ReaderPrefix == ~rd.err /\ IsPrefix(rd.out, Expected)
 \* C11.roundtrip, completeness half: once every written byte is delivered the reader has produced
 \* exactly the messages written and holds no partial frame -- for every fragmentation
 \* and every sequence of deadline expiries that the reader tolerates
-ReaderComplete == (net = <<>> /\ ~tm.closed) => (rd.out = Expected /\ rd.buf = <<>>)
+\* (after a cut write it holds exactly the k bytes of the truncated frame and never delivers that message)
+ReaderComplete == (net = <<>> /\ ~tm.closed) => (rd.out = Expected /\ Len(rd.buf) = (IF Broken(wr) THEN wr.cut ELSE 0))
 
 RECURSIVE SumPiece(_)
 SumPiece(q) == IF q = <<>> THEN 0 ELSE (IF Head(q).k = "piece" THEN Len(Head(q).payload) ELSE 0) + SumPiece(Tail(q))
 \* C11.upcount: what the writer reports equals the block bytes the remote side received
-UploadCount == (net = <<>> /\ ~tm.closed) => wr.upl = SumPiece(rd.out)
+\* (complete blocks + the body bytes of a block whose frame was cut short by a connection break)
+UploadCount == (net = <<>> /\ ~tm.closed) => wr.upl = SumPiece(rd.out) + (IF InBlock(rd) THEN BodyHave(rd) ELSE 0)
 \* a reader that is inside a block with fresh bytes is never closed by ONE expired deadline (liveness of slow peers,
 \* stated as a safety property of the step): checked as an action property in MC_Wire (SlowPeerKept)
 SlowPeerKept == [][(InBlock(rd) /\ tm.got /\ ~tm.closed /\ net' = net /\ ns' = ns) => (~tm'.closed /\ rd' = rd)]_vars
